@@ -1,7 +1,7 @@
 \* the whole case table with the prediction of the DESIGN model (no quirks); see Cases_full.cfg
 SPECIFICATION Spec
 CONSTANTS
-  StateKinds = {"fresh", "mid", "epoch", "hdr_ahead", "hdr_ahead_badroot", "pool_has", "pool_other", "restarted"}
+  StateKinds = {"fresh", "mid", "epoch", "hdr_ahead", "hdr_ahead_badroot", "hdr_ahead_badroot2", "pool_has", "pool_other", "restarted"}
   SRIH = {TRUE, FALSE}
   VTs = {TRUE, FALSE}
   Vias = {"block", "header"}
